@@ -227,24 +227,41 @@ def headerLine (tname : Str) (line : Str) : R (Node × Bool) :=
         .ok ({ kind, name := some (tname ++ ['.'] ++ nm), info, units := u }, dims.isSome)
       | _ => .error .fail
 
-/-- `csv.reader(…, delimiter=' ')` on one stripped line (plain and simply quoted cells) -/
-def csvRow : Nat → Str → R (List Str)
-  | 0, _ => .error .unsupported
-  | f + 1, s =>
-    match s with
-    | '"' :: r =>
-      let inner := r.takeWhile (fun c => c != '"')
-      (match r.dropWhile (fun c => c != '"') with
-       | [] => .error .unsupported
-       | _ :: [] => .ok [inner]
-       | _ :: ' ' :: r' => (csvRow f r').map (fun t => inner :: t)
-       | _ => .error .unsupported)
-    | _ =>
-      let cell := s.takeWhile (fun c => c != ' ')
-      if cell.contains '"' then .error .unsupported else
-      (match s.dropWhile (fun c => c != ' ') with
-       | [] => .ok [cell]
-       | _ :: r' => (csvRow f r').map (fun t => cell :: t))
+/-- states of the `_csv` reader (excel dialect: quote character `"`, doubled quotes, not strict) -/
+inductive CsvSt where
+  | startRec | startField | inField | inQuoted | quoteInQuoted
+
+/-- `csv.reader(…, delimiter=' ')` on one line, character by character as `parse_process_char` does:
+    a field that starts with `"` runs to the closing `"` (`""` is a literal quote, text after the
+    closing quote is appended), any other field runs to the next blank with quotes and backslashes
+    taken literally; two blanks enclose an empty field.  A quoted field that is still open at the end
+    of the line would continue on the next row: not modelled. -/
+def csvGo : CsvSt → Str → List Str → Str → R (List Str)
+  | st, fld, flds, [] =>
+    match st with
+    | .startRec => .ok []
+    | .startField => .ok (([] :: flds).reverse)
+    | .inField => .ok ((fld.reverse :: flds).reverse)
+    | .inQuoted => .error .unsupported
+    | .quoteInQuoted => .ok ((fld.reverse :: flds).reverse)
+  | st, fld, flds, c :: t =>
+    match st with
+    | .startRec | .startField =>
+      if c == '"' then csvGo .inQuoted [] flds t
+      else if c == ' ' then csvGo .startField [] ([] :: flds) t
+      else csvGo .inField [c] flds t
+    | .inField =>
+      if c == ' ' then csvGo .startField [] (fld.reverse :: flds) t
+      else csvGo .inField (c :: fld) flds t
+    | .inQuoted =>
+      if c == '"' then csvGo .quoteInQuoted fld flds t
+      else csvGo .inQuoted (c :: fld) flds t
+    | .quoteInQuoted =>
+      if c == '"' then csvGo .inQuoted ('"' :: fld) flds t
+      else if c == ' ' then csvGo .startField [] (fld.reverse :: flds) t
+      else csvGo .inField (c :: fld) flds t
+
+def csvRow (s : Str) : R (List Str) := csvGo .startRec [] [] s
 
 def rstrip (s : Str) : Str := (s.reverse.dropWhile isWs).reverse
 def strip (s : Str) : Str := rstrip (dropWs s)
@@ -263,7 +280,7 @@ def expandTable0 (raw : Option Raw) (name : Option Str) : R (List Node) :=
       let cols ← hdr.mapM (headerLine tname)
       if body.isEmpty || body.any isBlank then .error .unsupported
       else do
-        let rows ← body.mapM (fun l => csvRow (l.length + 1) (strip l))
+        let rows ← body.mapM (fun l => csvRow (strip l))
         if rows.any (fun r => r.length != cols.length) then .error .fail
         else
           let n := rows.length
